@@ -560,6 +560,9 @@ class Engine:
         else:
             self.state = store
             self.state.set_value(self.initial_state)
+            # the initial state may have named new children of a store
+            # that a glob port declares: complete them with the defaults
+            self.state.apply_defaults()
             # build the processes' views
             self.state.build_topology_views()
             # get processes and topology from the store
